@@ -3216,6 +3216,10 @@ class PyCdlib:
                 vd = self.pvd
                 rr = self.rock_ridge
                 xa = self.xa
+                if rr and rr_name and not continuation:
+                    for child in new_parent.rr_children:
+                        if child.rock_ridge is not None and child.rock_ridge.name() == rr_name:
+                            raise pycdlibexception.PyCdlibInvalidInput('Failed adding duplicate Rock Ridge name to parent')
             else:
                 # Above we checked to make sure we got exactly one new path, so
                 # we know for certain that this is Joliet.
@@ -3321,6 +3325,13 @@ class PyCdlib:
             for child in parent.children:
                 if child.file_ident == name and not child.is_associated_file():
                     raise pycdlibexception.PyCdlibInvalidInput('Failed adding duplicate name to parent')
+            if self.rock_ridge and rr_name:
+                # The Rock Ridge names of a directory form a namespace of
+                # their own; two entries must not share one either.
+                rr_name_bytes = rr_name.encode('utf-8')
+                for child in parent.rr_children:
+                    if child.rock_ridge is not None and child.rock_ridge.name() == rr_name_bytes:
+                        raise pycdlibexception.PyCdlibInvalidInput('Failed adding duplicate Rock Ridge name to parent')
 
         if joliet_path:
             joliet_path_bytes = self._normalize_joliet_path(joliet_path)
